@@ -313,7 +313,14 @@ int main(void)
 					printf("miss\n");
 				else { put_item(&iters[t].it); printf("\n"); }
 			}
-		} else if (!strcmp(op, "finfo") && n == 6 && slot_of(l.tok[1]) >= 0) {
+		} else if ((!strcmp(op, "finfo") || !strcmp(op, "finfof") || !strcmp(op, "finfog") || !strcmp(op, "finfoa"))
+				&& n == 6 && slot_of(l.tok[1]) >= 0) {
+			// finfo : every lzma_code call with LZMA_RUN
+			// finfof: "action = eof ? LZMA_FINISH : LZMA_RUN" where eof = this read reaches the end of the file
+			// finfog: the same, but the application learns about eof only from a short read (possibly an empty one)
+			// finfoa: abandon the decoding at the SECOND seek request (or finish if there is none); answers "ok";
+			//         with `reuse 1` the handle is left in that state for the next op
+			const int style = op[5] == 'f' ? 1 : op[5] == 'g' ? 2 : op[5] == 'a' ? 3 : 0;
 			int k = slot_of(l.tok[1]);
 			uint64_t memlimit = hp_u64(l.tok[2]);
 			size_t chunk = (size_t)hp_u64(l.tok[3]);
@@ -335,12 +342,14 @@ int main(void)
 				uint8_t *piece = malloc(a ? a : 1);
 				memcpy(piece, file + pos, a);
 				strm.next_in = piece; strm.avail_in = a;
-				r = lzma_code(&strm, LZMA_RUN);
+				const bool eof = style == 1 ? pos + a == len : style == 2 ? a < want : false;
+				r = lzma_code(&strm, eof ? LZMA_FINISH : LZMA_RUN);
 				++calls;
 				pos += a - strm.avail_in;
 				free(piece);
 				if (r == LZMA_SEEK_NEEDED) {
 					++seeks;
+					if (style == 3 && seeks == 2) break;
 					if (strm.seek_pos > len) { oob = 1; break; }
 					pos = strm.seek_pos;
 					r = LZMA_OK;
@@ -351,6 +360,12 @@ int main(void)
 			if (!g_reuse) lzma_end(&strm);
 #undef strm
 			drop(k);
+			if (style == 3) {
+				if (ni != NULL) lzma_index_end(ni, &h_allocator);
+				printf("ok # seeks=%lu calls=%lu ret=%d\n", seeks, calls, (int)r);
+				free(file);
+				continue;
+			}
 			idx[k] = ni;
 			printf("%d %d ", (int)r, oob); put_sum(idx[k]); printf(" # seeks=%lu calls=%lu\n", seeks, calls);
 			free(file);
